@@ -326,7 +326,8 @@ theorem fullReparse_false : ¬ FullReparse :=
     witness_facts.1 witness_facts.2.1 witness_facts.2.2.1
 
 /-- the region excluded by `charsOk` really fails: a dot segment, an empty `;params`, an escaped
-`&` and an escaped `+` in a query value -/
+`&` and an escaped `+` in a query value — by design of `urljoin` / `parse_qs` —, and a segment that
+ends with a blank (known finding KF-C19-FB-5, replayed on the implementation by the check) -/
 theorem excluded_shapes_fail :
     parse_facebook_url "https://www.facebook.com/..".toList false = .ok (some (.handle "..".toList)) ∧
     (Parsed.handle "..".toList).url = .ok (some "https://www.facebook.com/".toList) ∧
@@ -346,7 +347,11 @@ theorem excluded_shapes_fail :
     (Parsed.video "a+b".toList none).url = .ok (some "https://www.facebook.com/watch/?v=a+b".toList) ∧
     parse_facebook_url "https://www.facebook.com/watch/?v=a+b".toList false
       = .ok (some (.video "a b".toList none)) ∧
-    charsOk (.video "a+b".toList none) = false := by
+    charsOk (.video "a+b".toList none) = false ∧
+    parse_facebook_url "https://www.facebook.com/a /b".toList false = .ok (some (.handle "a ".toList)) ∧
+    (Parsed.handle "a ".toList).url = .ok (some "https://www.facebook.com/a ".toList) ∧
+    parse_facebook_url "https://www.facebook.com/a ".toList false = .ok (some (.handle "a".toList)) ∧
+    charsOk (.handle "a ".toList) = false := by
   decide +kernel
 
 /-- **the inputs of the former known findings KF-C19-FB-1..4 now behave** (fixes fec1df7,
